@@ -178,24 +178,22 @@ theorem link_generated_spec (ccd : Ccd) (atoms : List Atom) (b : Bond)
   · rw [k1.2.1, k2.2.1]; exact hgap
 
 /-- **Reader ⇒ writer.**  A bond the reader creates from the dictionary is a single bond between
-two consecutive residues; the (repaired) writer omits exactly such a bond from `struct_conn` iff
-both residues are canonical. -/
+two consecutive residues; the (repaired) writer omits exactly such a bond from `struct_conn` iff the
+two atoms are C–N of two canonical amino acids or O3'–P of two canonical nucleotides (`canonKind`). -/
 theorem generated_link_class (ccd : Ccd) (atoms : List Atom) (b : Bond)
     (hb : b ∈ connectInter ccd (residues atoms)) :
     b.i < atoms.length ∧ b.j < atoms.length ∧ b.t = btSingle ∧ inStructConn (resPos atoms) b = true ∧
-    isDroppedLink atoms b = (canonicalResidues.contains (atomAt atoms b.i).resName &&
-      canonicalResidues.contains (atomAt atoms b.j).resName) := by
+    isDroppedLink atoms b = canonKind (atomAt atoms b.i) (atomAt atoms b.j) := by
   obtain ⟨r, a1, a2, l1, l2, hln, hch, hgap, ht⟩ := link_generated_spec ccd atoms b hb
   obtain ⟨e1, p1⟩ := located_spec atoms r b.i a1 l1
   obtain ⟨e2, p2⟩ := located_spec atoms (r + 1) b.j a2 l2
   have hin : inStructConn (resPos atoms) b = true := by simp [inStructConn, p1, p2]
   refine ⟨lt_of_getElem?_some e1, lt_of_getElem?_some e2, ht, hin, ?_⟩
-  have hnames := linkNames_cases ccd _ _ _ _ hln
   have hpos : ((resPos atoms).getD b.j 0 : Int) - ((resPos atoms).getD b.i 0 : Int) = 1 := by
     rw [getD_of_getElem? _ _ _ p1, getD_of_getElem? _ _ _ p2]; omega
   simp only [isDroppedLink, hin, Bool.true_and, isCanonicalLink, atomAt_eq atoms b.i a1 e1, atomAt_eq atoms b.j a2 e2,
     hpos, ht, hch]
-  rcases hnames with ⟨h1, h2⟩ | ⟨h1, h2⟩ <;> simp [h1, h2, hgap]
+  simp [hgap]
 
 /-- **Writer ⇒ reader.**  A bond the (repaired) writer omits as a canonical backbone link is
 re-created by the reader exactly when the dictionary classifies the two residues so that the
@@ -221,7 +219,7 @@ theorem dropped_link_restored (ccd : Ccd) (atoms : List Atom) (hu : NamesUnique 
     -- unpack what the writer tested
     simp only [isDroppedLink, isCanonicalLink, Bool.and_eq_true, beq_iff_eq, decide_eq_true_eq,
       atomAt_eq atoms b.i _ ai, atomAt_eq atoms b.j _ aj] at hd
-    obtain ⟨_, ⟨⟨⟨⟨⟨⟨_, _⟩, _⟩, _⟩, hpos⟩, ht⟩, hch⟩, hgap⟩ := hd
+    obtain ⟨_, ⟨⟨⟨_, hpos⟩, ht⟩, hch⟩, hgap⟩ := hd
     obtain ⟨ri, gi, hgi, hxi⟩ := located_of_lt atoms b.i _ ai
     obtain ⟨rj, gj, hgj, hxj⟩ := located_of_lt atoms b.j _ aj
     have pi := (located_spec atoms ri b.i _ ⟨gi, hgi, hxi⟩).2
